@@ -361,20 +361,21 @@ pub fn make_module() -> KMap {
         match ctx.instance_and_args(is_list, expected_error)? {
             (KValue::List(l), []) => {
                 let l = l.clone();
-                let mut data = l.data_mut();
+                // Comparing values can call back into script code that accesses the list,
+                // so a copy of the data is sorted while the list isn't borrowed.
+                let mut data = l.data().clone();
                 sort_values(ctx.vm, &mut data)?;
+                *l.data_mut() = data;
                 Ok(KValue::List(l.clone()))
             }
             (KValue::List(l), [f]) if f.is_callable() => {
                 let l = l.clone();
 
-                let sorted = sort_by_key(ctx.vm, l.data().as_ref(), f.clone())?;
-
-                for (target_value, (_key, source_value)) in
-                    l.data_mut().iter_mut().zip(sorted.into_iter())
-                {
-                    *target_value = source_value;
-                }
+                // The key function could access the list,
+                // so a copy of the data is sorted while the list isn't borrowed.
+                let data = l.data().clone();
+                let sorted = sort_by_key(ctx.vm, data.as_ref(), f.clone())?;
+                *l.data_mut() = sorted.into_iter().map(|(_key, value)| value).collect();
 
                 Ok(KValue::List(l))
             }
